@@ -529,7 +529,7 @@ func FunctionMap() map[string]physical.FunctionDetails {
 								}
 
 								var sb strings.Builder
-								sb.WriteRune('^') // match start
+								sb.WriteString("(?s)^") // match start; (?s) lets _ and % match newline characters as well
 
 								escaping := false // was the character previously seen an escaping \
 
